@@ -11,7 +11,7 @@ import itertools
 from mc.core import Check, h
 from mc.vloop import World
 
-YIELDABLES = ["F0", "F1", "LIST", "DICT", "NONE", "NATIVE", "SUB", "F0AGAIN"]
+YIELDABLES = ["F0", "F1", "LIST", "DICT", "NONE", "NATIVE", "SUB", "F0AGAIN", "CF"]
 SIMPLE = [("log",)] + [("y", e) for e in YIELDABLES] + [("ret",), ("raise",), ("ifret",), ("cvset",)]
 CV = contextvars.ContextVar("c37", default="unset")
 
@@ -43,6 +43,9 @@ def emit(stmts, gen_form, indent=1, counter=None):
                 expr = "{'a': F[1], 'b': F[0]}" if gen_form else "ref_multi({'a': F[1], 'b': F[0]})"
             elif e == "NONE":
                 expr = "None" if gen_form else "asyncio.sleep(0)"
+            elif e == "CF":
+                # a concurrent.futures.Future (settled together with F[2]); natively it is awaited through asyncio
+                expr = "CF" if gen_form else "asyncio.wrap_future(CF)"
             elif e == "NATIVE":
                 expr = "native(F[2])"
             else:
@@ -91,8 +94,8 @@ def compile_pair(stmts):
     src = {}
     fns = {}
     for gen_form in (True, False):
-        head = ("@gen.coroutine\ndef prog(F, log, native, sub, flag):" if gen_form
-                else "async def prog(F, log, native, sub, flag):")
+        head = ("@gen.coroutine\ndef prog(F, log, native, sub, flag, CF):" if gen_form
+                else "async def prog(F, log, native, sub, flag, CF):")
         lines = [head, "    log(('cv', CV.get()))"] + emit(stmts, gen_form) + ["    log('end')"]
         code = "\n".join(lines) + "\n"
         ns = {}
@@ -121,20 +124,29 @@ def run_one(fn, gen_form, outcomes, order, npre, flag):
             log.append(("sub-got", r))
             return ("s", r)
 
+        import concurrent.futures
+        CF = concurrent.futures.Future()
+
         def settle(i):
             if outcomes[i] == "r":
                 F[i].set_result("val%d" % i)
+                if i == 2:
+                    CF.set_result("cf-val")
             else:
                 F[i].set_exception(Err("F%d failed" % i))
+                if i == 2:
+                    CF.set_exception(Err("CF failed"))
+            # nothing may have run inside the completing call itself: resumption happens on a later loop iteration
+            log.append(("settled", i))
         for i in order[:npre]:
             settle(i)
         tok = CV.set("outer")
         try:
             try:
                 if gen_form:
-                    fut = fn(F, log.append, native, sub, flag)
+                    fut = fn(F, log.append, native, sub, flag, CF)
                 else:
-                    fut = asyncio.ensure_future(fn(F, log.append, native, sub, flag))
+                    fut = asyncio.ensure_future(fn(F, log.append, native, sub, flag, CF))
             except Exception as e:
                 return (list(log), ("sync-raise", type(e).__name__, str(e)))
         finally:
@@ -198,7 +210,7 @@ SCHEDULES = [(order, npre) for order in itertools.permutations(range(3)) for npr
 class C37(Check):
     id = "C37"
     level = "model_checking"
-    rule = ("all coroutine bodies from the grammar {log, v = yield F0|F1|[F0,F1]|{a:F1,b:F0}|None|native(F2)|gen-sub(F2)| "
+    rule = ("all coroutine bodies from the grammar {log, v = yield F0|F1|[F0,F1]|{a:F1,b:F0}|None|native(F2)|gen-sub(F2)|concurrent.futures.Future| "
             "F0 again, return, raise, if flag: return, set the context variable, try/except/finally (except / finally / both, handler empty or "
             "yielding / returning / raising)} as sequences of <= 3 (thorough: <= 4 with >= 2 yields) simple statements and try blocks with <= 2 inner "
             "statements plus optional pre/post statements (thorough: nested try), each compiled as @gen.coroutine and as "
@@ -229,7 +241,7 @@ class C37(Check):
                 st.error("generated program does not compile: %r %s" % (stmts, e))
                 continue
             uses = src[True]
-            nf = [("F[0]" in uses), ("F[1]" in uses), ("F[2]" in uses)]
+            nf = [("F[0]" in uses), ("F[1]" in uses), ("F[2]" in uses or "CF" in uses.split("def prog", 1)[1].split(":", 1)[1])]
             outcome_sets = itertools.product(*[("r", "e") if u else ("r",) for u in nf])
             for outcomes in outcome_sets:
                 for order, npre in SCHEDULES:
